@@ -55,4 +55,9 @@ def regenerate_all():
             msgs.append('%s: %s: %s' % (name, type(e).__name__, e))
             text = '(* translator failed: %s *)\n' % str(e).replace('*)', '* )')
         _write_if_changed(path, '(* GENERATED from /repo by harness/translate.py on every run. Do not edit. *)\n' + text)
+    global LAST_FAILED
+    LAST_FAILED = {m.split(':', 1)[0]: m for m in msgs}      # Gen file name -> message
     return ok, '; '.join(msgs)
+
+
+LAST_FAILED = {}
